@@ -189,8 +189,15 @@ def run_lines(binary, lines, args=(), jobs=None, timeout=7200):
     return res
 
 
+RETAINED_ALERTS = []   # reports the library had returned and that changed after a later call (noticed by the harness, whatever the stream)
+
+
 def run_impl(lines, **kw):
-    return [json.loads(l) for l in run_lines(ACVH, lines, args=("impl",), **kw)]
+    out = [json.loads(l) for l in run_lines(ACVH, lines, args=("impl",), **kw)]
+    for line, r in zip(lines, out):
+        if isinstance(r, dict) and r.get("retainedChanged"):
+            RETAINED_ALERTS.append((r["retainedChanged"], line))
+    return out
 
 
 def run_model(lines, **kw):
@@ -253,6 +260,14 @@ class Ctx:
         self.breaks.append((signature, description, payload))
 
     def finish(self, level="proof", checker_cmd="", trusted=None, extra=None):
+        for what, line in RETAINED_ALERTS[:3]:
+            # a Go string the caller holds is immutable: the report no longer says what the library answered, whatever the property
+            try:
+                case = json.loads(line)
+            except Exception:
+                case = {"line": line[:2000]}
+            self.violation("retained-report-changed", "a report the library had returned was changed behind the caller's back by a later call: " + what,
+                           {"during_case": case, "what": what})
         if self.breaks and not self.violations:
             sig, desc, payload = self.breaks[0]
             self.violation("correspondence-broken:" + sig, f"correspondence no longer checks ({len(self.breaks)} case(s) differ); first: {desc}",
